@@ -3,7 +3,8 @@
 For every specimen of the universe and every well-typed depth-<=2 composite (A@B, A+B, A-B, k*(A@B), block row /
 diagonal / column in list, dict and tuple containers), in both 64-bit modes:
    probe(A.T) == probe(A)^T   (this IS <Ax,y> = <x,A^T y> on all basis pairs), structures swapped,
-   probe(A.T.T) == probe(A).
+   probe(A.T.T) == probe(A);
+   a second request for A.T, A.T.T.T, vmap(A.T.mv) and A.T passed as an argument to a jitted function act as probe(A)^T too.
 The probes apply the real mv eagerly to every basis vector; nothing is sampled.
 """
 from __future__ import annotations
@@ -202,7 +203,7 @@ def contains_no_transpose(desc):
     return desc['a'] in U.NO_TRANSPOSE or desc.get('b') in U.NO_TRANSPOSE
 
 
-def oracle(desc, op, exact):
+def oracle(desc, op, exact, all_transforms=True):
     import numpy as np
 
     from mc import probe as P
@@ -229,6 +230,41 @@ def oracle(desc, op, exact):
         probs.append(('double-transpose', f'max |M(A.T.T) - M(A)| = {P.maxdiff(ptt.M, pa.M):.4g}'))
     if not P.same_struct(TT.in_structure(), op.in_structure()) or not P.same_struct(TT.out_structure(), op.out_structure()):
         probs.append(('double-transpose-structure', f'{TT.in_structure()} -> {TT.out_structure()}'))
+    # --- histories and transformations: a second request for A.T, the transpose of A.T.T, A.T under vmap, and A.T handed to a
+    # jitted function as an argument must all act as M(A)^T on one non-basis vector (unsupported transformations are skipped)
+    m = pa.M.shape[0]
+    import json
+    import zlib
+
+    if m and pa.M.shape[1] and not probs and (desc['form'] == 'single' or all_transforms or zlib.crc32(json.dumps(desc, sort_keys=True).encode()) % 4 == 0):
+        import jax
+        import jax.numpy as jnp
+
+        ftol = max(tol, 1e-5 if any(_np.dtype(d) in (_np.dtype('float32'), _np.dtype('complex64')) for d in P.op_dtypes(op)) else 1e-12)
+        yv = (np.arange(m) % 5) - 1.0
+        y = P.unflat(yv, T.in_structure())
+        want = pa.M.T @ P.flat(y)
+        for where, get in (('second request for A.T', lambda: op.T), ('A.T.T.T', lambda: TT.T)):
+            Tx = P.lib(where, get)
+            got = P.flat(P.lib('mv', Tx.mv, y))
+            if not P.close(got, want, ftol):
+                probs.append(('transpose-history', f'{where}: applied to {yv[:6]} gives {got[:6]}, M(A)^T y = {want[:6]}'))
+        try:
+            Y = jax.tree.map(lambda l: jnp.stack([l, 2 * l]), y)
+            R = P.lib('vmap(A.T.mv)', jax.vmap(T.mv), Y)
+            r0, r1 = (P.flat(jax.tree.map(lambda l, k=k: l[k], R)) for k in range(2))
+            if not (P.close(r0, want, ftol) and P.close(r1, 2 * want, ftol)):
+                probs.append(('transpose-vmap', f'vmap(A.T.mv) over (y, 2y): {r0[:6]} / {r1[:6]}, M(A)^T y = {want[:6]}'))
+        except P.LibError:
+            pass
+        try:
+            import equinox as eqx
+
+            got = P.flat(P.lib('filter_jit(A.T as argument)', eqx.filter_jit(lambda t, v: t.mv(v)), T, y))
+            if not P.close(got, want, ftol):
+                probs.append(('transpose-jit-argument', f'A.T passed to a jitted function: {got[:6]}, M(A)^T y = {want[:6]}'))
+        except P.LibError:
+            pass
     nontrivial = not np.array_equal(pa.M, pa.M.T) if pa.M.shape[0] == pa.M.shape[1] else True
     return probs, nontrivial
 
@@ -236,7 +272,9 @@ def oracle(desc, op, exact):
 def run(phase, cases, ctx):
     from mc import unirun
 
-    return unirun.run(cases, oracle)
+    import functools
+
+    return unirun.run(cases, functools.partial(oracle, all_transforms=ctx.get('tier') == 'thorough'))
 
 
 def finalize(results, tier, seed):
